@@ -247,6 +247,9 @@ type FLCase struct {
 	Flushes int   `json:"flushes"`
 	ToGCs   int   `json:"togcs"`
 	Delays  []int `json:"delays_us"` // consumed round-robin at the named points
+	// Pregrow: entries put and flushed sequentially before the concurrent
+	// phase (more than the pool's initial capacity, so its array has grown).
+	Pregrow int `json:"pregrow,omitempty"`
 }
 
 func genFL(t *rapid.T) FLCase {
@@ -256,6 +259,7 @@ func genFL(t *rapid.T) FLCase {
 		Flushes: rapid.IntRange(0, 6).Draw(t, "flushes"),
 		ToGCs:   rapid.IntRange(1, 5).Draw(t, "togcs"),
 		Delays:  rapid.SliceOfN(rapid.IntRange(0, 300), 1, 12).Draw(t, "delays"),
+		Pregrow: []int{0, 1100, 2500}[weighted(t, "pregrow", []int{3, 1, 1})],
 	}
 }
 
@@ -279,6 +283,16 @@ func runFL(c FLCase) (handoversInFlight int, v *Violation) {
 	})
 	defer vhook.SetHandler(nil)
 
+	for i := 0; i < c.Pregrow; i++ {
+		if err := fl.Put(types.Block{Offset: types.Position(9000000 + i), Size: 9}); err != nil {
+			panic(infraError{err})
+		}
+	}
+	if c.Pregrow > 0 {
+		if _, err := fl.Flush(); err != nil {
+			panic(infraError{err})
+		}
+	}
 	var wg sync.WaitGroup
 	var inFlight atomic.Int64
 	var errMu sync.Mutex
@@ -376,6 +390,13 @@ func runFL(c FLCase) (handoversInFlight int, v *Violation) {
 			}
 			delete(got, b)
 		}
+	}
+	for i := 0; i < c.Pregrow; i++ {
+		b := types.Block{Offset: types.Position(9000000 + i), Size: 9}
+		if got[b] != 1 {
+			return handoversInFlight, viol("freelist-entry-lost|concurrent|pregrow", 0, "entry %d/%d of the sequential warm-up was delivered %d times", b.Offset, b.Size, got[b])
+		}
+		delete(got, b)
 	}
 	if len(got) != 0 {
 		return handoversInFlight, viol("freelist-entry-invented|concurrent|", 0, "entries never Put were delivered: %v", got)
